@@ -66,16 +66,24 @@ def _check_query(cx: Cx, fn, manhattan: bool):
                          f"{fn.name} returns on a path [{p.cond!r}] without running the three cell loops: cells (or the centre when "
                          f"incl_center is set) are missing from that answer", where=cx.where(fn, p.last.line), path=p.lines())
             return
-    # the centre term
-    centre = None
-    for e in full[0][0].events:
-        if e.kind == 'call' and any(t.name == '_get_cell_pos_as_tuple' for t in e.data.get('targets', [])):
-            if e.data.get('args') == (cell_pos,):
-                centre = e.data.get('result')
-    if centre is None:
+    # the centre term: the normalised cell_pos - or cell_pos itself on a path that established it is exactly a tuple (for which the
+    # normaliser returns its argument: verified with _get_cell_pos_as_tuple below)
+    def centre_of(p):
+        for e in p.events:
+            if e.kind == 'call' and any(t.name == '_get_cell_pos_as_tuple' for t in e.data.get('targets', [])):
+                if e.data.get('args') == (cell_pos,):
+                    return e.data.get('result')
+        from sa.terms import AEq as _AEq
+        for tup in (Sym('tuple'), Sym('builtins.tuple')):
+            if implies(p.cond, _AEq(App('type', (cell_pos,)), tup)) is None:
+                return cell_pos
+        return None
+    centres = {id(p): centre_of(p) for p, _ in full}
+    if any(v is None for v in centres.values()):
         cx.violation('R-FWD', fn.qualname, 'centre-normalised', f"{fn.name} does not normalise cell_pos through "
                      f"_get_cell_pos_as_tuple", where=cx.where(fn))
         return
+    centre = centres[id(full[0][0])]
     c = [Sub(centre, Num(Fraction(i))) for i in range(3)]
     reported = set()
 
@@ -88,6 +96,7 @@ def _check_query(cx: Cx, fn, manhattan: bool):
     tuple_paths = []
     n_bounds = 0
     for p, iters in full:
+        c = [Sub(centres[id(p)], Num(Fraction(i))) for i in range(3)]
         is_tuple = implies(p.cond, AEq_type(ret_type, 'tuple')) is None
         is_int = implies(p.cond, AEq_type(ret_type, 'int')) is None
         # loop variables outer -> inner
@@ -182,13 +191,15 @@ def _check_query(cx: Cx, fn, manhattan: bool):
         appended = []
         bad_multi = None
         for p, iters, vars_, apps in grp:
-            inner = [e for e in p.events if e.kind == 'cond' and len(e.loops) == 3]
+            cl_ = {it.node.lineno for it in iters}
+            inner = [e for e in p.events if e.kind == 'cond' and cl_ <= set(e.loops)]      # also inside a `for v in (expr,)` binding
             F = f_and(*[e.data['formula'] for e in inner])
             if len(apps) > 1:
                 bad_multi = (p, apps)
             if apps:
                 appended.append(F)
         vz, vy, vx = grp[0][2]
+        c = [Sub(centres[id(grp[0][0])], Num(Fraction(i))) for i in range(3)]
         if bad_multi:
             viol('R-GUARD', 'cell-appended-at-most-once', f"{fn.name}: a visited cell is appended {len(bad_multi[1])} times on one "
                  f"path", cx.where(fn, bad_multi[1][1].line), path=bad_multi[0].lines())
